@@ -1,6 +1,7 @@
 package checks
 
 import (
+	"encoding/json"
 	"strings"
 
 	"vharness/internal/core"
@@ -18,16 +19,41 @@ func init() {
 	core.Register(&core.Check{
 		ID:    "C05",
 		Level: "exploration",
-		Rule: "programs without any domain filter: (1) the operand-source x context products of C01 with the full operand list (ill-typed and nil operands included); (2) the adversarial product: every binary and unary operator over a 16-value alphabet of every kind and extreme value (zero divisors, indices -1/#s/2^63-1, shift counts -1/63/64/65) at operand depth 0/1/2 left and right, every value as if/while condition, as callee, as index and slice bound, wrong arities for user functions and all eight built-ins, aton of non-numbers; (3) every statement of at most 4 (quick) / 5 (thorough) nodes over the adversarial leaf alphabet, at top level and as a function body; (4) every token sequence of length <= 4 (quick) / 5 (thorough) over a 27-token alphabet that the parser accepts; (5) the generator x body x placement family of C02 (quick: every fourth member); (7) every pair of statements of the C08 alphabet (failures of every kind) followed by the C08 observers; (6) the statement-position product (every statement form x every body shape x 27 statement contexts); (8) every parameter list of length <= 3 over two names, repeated names included, x 14 bodies x calls of every arity. " +
+		Rule: "programs without any domain filter: (1) the operand-source x context products of C01 with the full operand list (ill-typed and nil operands included); (2) the adversarial product: every binary and unary operator over a 16-value alphabet of every kind and extreme value (zero divisors, indices -1/#s/2^63-1, shift counts -1/63/64/65) at operand depth 0/1/2 left and right, every value as if/while condition, as callee, as index and slice bound, wrong arities for user functions and all eight built-ins, aton of non-numbers; (3) every statement of at most 4 (quick) / 5 (thorough) nodes over the adversarial leaf alphabet, at top level and as a function body; (4) every token sequence of length <= 4 (quick) / 5 (thorough) over a 27-token alphabet that the parser accepts; (5) the generator x body x placement family of C02 (quick: every fourth member); (7) every pair of statements of the C08 alphabet (failures of every kind) followed by the C08 observers; (6) the statement-position product (every statement form x every body shape x 27 statement contexts); (8) every parameter list of length <= 3 over two names, repeated names included, x 14 bodies x calls of every arity; (9) five sessions of 33000 statements that cross the 2^15 limit of the data segment one, two and three entries at a time. " +
 			"Each program is compiled and run on a fresh real VM under instruction fuel: a host panic, an undocumented error class or (inside the described domain) non-termination is a violation. distinct = distinct session text; non-trivial = sessions that executed at least one statement to a value or a documented runtime error",
 		Assumptions: []string{
 			"in-process execution with recover(): a Go panic is the observation of an internal fault; fatal runtime errors kill the worker and are attributed through the progress record",
 			"fuel 64 x reference steps + 20000 VM instructions; programs the reference cannot finish, or that lie outside the described domain, are not judged for termination",
 		},
-		Exec:   sessExec(c05Opt),
-		Shrink: sessShrink(c05Opt),
-		Run:    c05Run,
+		Exec: func(payload string) (string, string) {
+			if strings.HasPrefix(payload, `{"sizecrossing"`) {
+				impl.Init()
+				var it struct{ Sizecrossing string }
+				if err := json.Unmarshal([]byte(payload), &it); err != nil {
+					return "harness:bad-payload", err.Error()
+				}
+				return c05SizeCrossing(it.Sizecrossing)
+			}
+			return sessExec(c05Opt)(payload)
+		},
+		Shrink: func(payload, sig string) string {
+			if strings.HasPrefix(payload, `{"sizecrossing"`) {
+				return payload
+			}
+			return sessShrink(c05Opt)(payload, sig)
+		},
+		Run: c05Run,
 	})
+}
+
+// c05SizeCrossing runs one of C15's size-crossing sessions and keeps only the faults (a host panic; C15 judges the values).
+func c05SizeCrossing(kind string) (sig, detail string) {
+	gen, n := c15SessionSpec(kind, 33000)
+	sig, detail, _, _ = c15RunSession(gen, n)
+	if sig != "size-limit-host-panic" {
+		return "", ""
+	}
+	return "host-panic:size-crossing-session", detail
 }
 
 func c05Values() []T {
@@ -231,6 +257,20 @@ func c05Run(w *core.W) {
 					}
 				}
 			}
+		}
+	}
+
+	// (9) sessions that grow past what an operand can address (the size-crossing sessions of C15: one constant, one name
+	// reference, two and three constants per statement): every statement either works or is refused, none aborts
+	w.Family("size-crossing-sessions")
+	for _, kind := range []string{"literals", "literals-odd", "names", "two-constants", "three-constants"} {
+		b, _ := json.Marshal(map[string]any{"sizecrossing": kind})
+		if !w.Mine(string(b)) {
+			continue
+		}
+		w.NonTrivial()
+		if sig, detail := c05SizeCrossing(kind); sig != "" {
+			w.Fail(string(b), sig, detail)
 		}
 	}
 
